@@ -14,6 +14,16 @@ CLAIMED = {
             "Every header of a boundary grid (fin x rsv x op x masked x mask x 22 lengths up to 2^63-1), random headers with uniform bit-width, and structured/random byte strings are run through WriteHeader/HeaderSize/ReadHeader/Reader.NextFrame (whole, byte-wise and split transports) and the whole-frame APIs; TLC evaluates FrameCodec.tla (RFC 6455 5.2 transcribed, self-checked by RoundTrip) on each logged record: exact bytes, size, consumed count, decoder agreement. Function-like property, so the spec is an oracle rather than a state space; exploration level.",
             "Trusts TLC's evaluation of FrameCodec.tla and the harness' logging; input space sampled on boundaries + seeded random, not exhaustive.",
             "7/C01"),
+    "C02": ("exploration",
+            "TLA+ Mask operator (RFC 6455 5.3) as oracle for logged records + exhaustive TLC model of the chunked/strided cipher (MaskStream)",
+            "MaskStream.tla: TLC checks for every payload length 0..44, 10 offsets and every chunk boundary that the running-offset machine equals the one-shot RFC XOR, that masking is an involution and that cipher.go's head/16-byte-stride/tail index arithmetic equals the RFC definition. Records from the real ws.Cipher (lengths 0..80 x 14 offsets x 8 alignments, every 2-split, seeded multi-splits), CipherReader/CipherWriter over short-read/short-write transports (with Reset), and the six Mask/Unmask frame helpers (header fields, output, caller slice before/after) are judged by TLC against Mask.",
+            "Keys and payload bytes are seeded-random samples; offsets near MaxInt excluded; trusts TLC's Bitwise XOR.",
+            "7/C02"),
+    "C03": ("exploration",
+            "TLA+ WsCheck rule set as oracle; complete grid enumerated in the harness and judged by TLC (record validation, exhaustive domain)",
+            "The whole CheckHeader domain (fin x rsv x op x masked x len class x 16 states = 32768 cases) and all 65536 close codes are enumerated; TLC judges each logged verdict with WsCheck!Broken (accept iff no rule broken; the reported error names a broken rule) and CloseDataOk (accept/refuse/open classes; reason validity by the RFC 3629 table, model-checked against the streaming automaton). Close bodies for 11 codes x reason lengths 0..130 (ASCII and multi-byte crops) must equal CloseBody and parse back.",
+            "Length classes {0,125,126,65536} stand for all lengths (the rules only compare with 125). Reasons are a fixed set of valid/invalid shapes (+ random in thorough).",
+            "7/C03"),
 }
 
 PENDING_REASON = "check not built yet in this round (work in progress; planned in DESIGN.md section 7)"
